@@ -1175,6 +1175,7 @@ func readMinMaxFromData(cm *ChunkMeta, colIndex int, dst *record.Record, dstIdx 
 		err = readTimeColumn(tmSeg, timeCol, ctx, cr, copied, ioPriority)
 		if err != nil {
 			log.Error("decode time data fail", zap.Error(err))
+			return
 		}
 
 		offset, size := colSeg.OffsetSize()
@@ -1322,6 +1323,7 @@ func readSumCountFromData(cm *ChunkMeta, colIndex int, dst *record.Record, callI
 		err := readTimeColumn(tmSeg, timeCol, ctx, cr, copied, ioPriority)
 		if err != nil {
 			log.Error("decode time data fail", zap.Error(err))
+			return err
 		}
 
 		offset, size := colSeg.OffsetSize()
